@@ -110,6 +110,8 @@ pub struct Config {
     /// A custom retry policy set through `.retry_options(f)`: scenarios tagged `pol` get
     /// two retries without delay, nothing else is retried (tags / CLI / builder ignored).
     pub retry_policy: bool,
+    /// C20: a clone of the configured `Cucumber` stays alive while the run goes on.
+    pub clone_alive: bool,
 }
 
 impl Default for Config {
@@ -146,6 +148,7 @@ impl Default for Config {
             warn_filter: false,
             reverse_builder: false,
             retry_policy: false,
+            clone_alive: false,
         }
     }
 }
